@@ -83,7 +83,7 @@ theorem quote_header_valid (s : Bytes) : ∀ c ∈ quote s, validValueByte c = t
   quote_valid s
 
 set_option maxRecDepth 100000 in
-private theorem goQuoteByte_printable : ∀ c : UInt8, 32 ≤ c ∧ c < 127 →
+theorem goQuoteByte_printable : ∀ c : UInt8, 32 ≤ c ∧ c < 127 →
     (c = 92 ∧ goQuoteByte c = some [92, 92]) ∨ (c = 34 ∧ goQuoteByte c = some [92, 34]) ∨
     (goQuoteByte c = some [c] ∧ (c == 34) = false ∧ (c == 92) = false ∧ (c == 13) = false ∧ (c == 10) = false) := by
   apply Req.Form.byte_forall
@@ -193,6 +193,199 @@ example : (serverForm [66] (write [66] [([107], [118, 13, 10, 45, 45])]
     = some [.field [107] [118, 13, 10, 45, 45],
             .file [102] [97, 9, 34, 92, 200] [116, 47, 120] [13, 10, 45, 45, 65, 0]] := by decide
 
+/- Non-vacuity of the hypotheses: the same field and file satisfy `FieldOK` / `FileOK`. -/
+example : FieldOK [66] ([107], [118, 13, 10, 45, 45]) :=
+  ⟨by decide, by decide, by unfold BoundaryFree; decide⟩
+
+example : FileOK [66] ⟨[102], [97, 9, 34, 92, 200], [([120, 45, 97], [1, 2])], [116, 47, 120], [13, 10, 45, 45, 65, 0]⟩ :=
+  ⟨by decide, by decide, by unfold GoodParams; decide, by unfold CTypeOK; decide, by unfold BoundaryFree; decide⟩
+
 end Multipart
+
+/-! ## Part 4: body dispatch (`parseRequestBody`) -/
+
+section Dispatch
+open Req.Body Req.Multipart
+
+/-- The method table of `isPayloadForbid`. -/
+theorem isPayloadForbid_iff (m : String) (allow : Bool) :
+    isPayloadForbid m allow = true ↔ m = "HEAD" ∨ m = "OPTIONS" ∨ (m = "GET" ∧ allow = false) := by
+  simp only [isPayloadForbid, Bool.or_eq_true, Bool.and_eq_true, beq_iff_eq, Bool.not_eq_true']
+  constructor
+  · rintro ((⟨h, ha⟩ | h) | h)
+    · exact Or.inr (Or.inr ⟨h, ha⟩)
+    · exact Or.inl h
+    · exact Or.inr (Or.inl h)
+  · rintro (h | h | ⟨h, ha⟩)
+    · exact Or.inl (Or.inr h)
+    · exact Or.inr h
+    · exact Or.inl (Or.inl ⟨h, ha⟩)
+
+/-- **payload_forbidden_sends_none** — whatever body description the request carries (raw
+body, value to marshal, form data, files), a method that must not carry a payload sends
+none, and no error is raised. -/
+theorem payload_forbidden_sends_none (c : Cfg) (h : isPayloadForbid c.method c.allowGet = true) :
+    dispatch c = some ⟨.none, none, effCT c⟩ := by
+  simp [dispatch, h]
+
+private def exHead : Cfg :=
+  { method := "HEAD", allowGet := true, multipart := true, clientForm := [([1], [ [2] ])],
+    reqForm := [], ordered := [[1]], files := [], boundary := [66], marshal := some (some [1], none),
+    body := some [1, 2], reqCT := [], clientCT := [], sniffed := [] }
+
+example : (dispatch exHead).map (·.body) = some none := by decide
+
+private def exGet : Cfg :=
+  { method := "GET", allowGet := true, multipart := false, clientForm := [],
+    reqForm := [], ordered := [], files := [], boundary := [66], marshal := none,
+    body := some [1, 2], reqCT := [], clientCT := [], sniffed := [7] }
+
+/- Conversely a body IS sent with every other method when one is described. -/
+example : (dispatch exGet).map (·.body) = some (some [1, 2]) := by decide
+
+/-- An odd number of ordered form data strings is refused by the call itself (repaired
+behaviour, fixes/C17-2) — unless the method sends no payload at all. -/
+theorem ordered_odd_fails (c : Cfg) (hm : isPayloadForbid c.method c.allowGet = false)
+    (h : c.ordered.length % 2 = 1) : dispatch c = none := by
+  have : pairUp c.ordered = none := by
+    have := ordered_odd_rejected c.ordered h
+    simpa [encodeOrdered] using this
+  simp [dispatch, hm, this]
+
+/-- **marshal_choice** — a value to marshal (and nothing that takes precedence: no form data,
+no multipart): without any Content-Type preset the JSON marshaller is used and the JSON
+content type is set; with a preset (request level first, else client level) containing
+"xml" the XML marshaller is used, otherwise the JSON marshaller; the preset type is kept. -/
+theorem marshal_choice (c : Cfg) (json xml : Option Bytes)
+    (hm : isPayloadForbid c.method c.allowGet = false) (hmp : c.multipart = false)
+    (ho : c.ordered = []) (hr : c.reqForm = []) (hc : c.clientForm = [])
+    (hv : c.marshal = some (json, xml)) :
+    dispatch c =
+      if (effCT c).isEmpty then json.map (fun j => ⟨.marshalJson, some j, jsonCT⟩)
+      else if isInfix xmlWord (effCT c) then xml.map (fun x => ⟨.marshalXml, some x, effCT c⟩)
+      else json.map (fun j => ⟨.marshalJson, some j, effCT c⟩) := by
+  simp only [dispatch, hm, hmp, ho, hr, hc, hv, pairUp, mergeForm, addAll, List.foldl_nil,
+    List.isEmpty_nil, Bool.false_eq_true, ↓reduceIte, Bool.not_true, Bool.or_self]
+  split
+  · cases json <;> rfl
+  · split
+    · cases xml <;> rfl
+    · cases json <;> rfl
+
+theorem joinAmp_encodePairs (a b : List Pair) :
+    joinAmp (encodePairs a) (encodePairs b) = encodePairs (a ++ b) := by
+  have hne : ∀ (p : Pair) (l : List Pair), (encodePairs (p :: l)).isEmpty = false := by
+    intro p l
+    cases l with
+    | nil => simp [encodePairs, encPair]
+    | cons q qs => simp [encodePairs, encPair]
+  induction a with
+  | nil =>
+    cases b with
+    | nil => rfl
+    | cons q qs => simp [joinAmp, encodePairs]
+  | cons p ps ih =>
+    cases b with
+    | nil => simp [joinAmp, hne, encodePairs]
+    | cons q qs =>
+      cases ps with
+      | nil =>
+        have h1 := hne p []
+        simp only [encodePairs] at h1
+        simp [joinAmp, h1, hne, encodePairs]
+      | cons r rs =>
+        have h1 : encodePairs (p :: r :: rs) = encPair p ++ 38 :: encodePairs (r :: rs) := rfl
+        have h2 : encodePairs (p :: r :: rs ++ q :: qs) = encPair p ++ 38 :: encodePairs (r :: rs ++ q :: qs) := rfl
+        rw [h2, ← ih]
+        simp [joinAmp, hne, h1]
+
+/-- **content_type_matches_body** (urlencoded case) — whenever form data of either kind is
+present (and the request is not multipart), the request goes out as
+`application/x-www-form-urlencoded` — whatever Content-Type was preset — and the server's
+`ParseForm` reads the body back, without error, as exactly the ordered pairs (in order)
+followed by the merged request + client form data. -/
+theorem form_dispatch_roundtrip (c : Cfg) (pairs : List Pair)
+    (hm : isPayloadForbid c.method c.allowGet = false) (hmp : c.multipart = false)
+    (ho : pairUp c.ordered = some pairs)
+    (hne : (mergeForm c.reqForm c.clientForm).isEmpty = false ∨ pairs.isEmpty = false) :
+    ∃ body, dispatch c = some ⟨.form, some body, formCT⟩ ∧
+      parseForm body = (pairs ++ flatten (sortKeys (mergeForm c.reqForm c.clientForm)), false) := by
+  refine ⟨joinAmp (encodePairs pairs) (encode (mergeForm c.reqForm c.clientForm)), ?_, ?_⟩
+  · have : (!(mergeForm c.reqForm c.clientForm).isEmpty || !pairs.isEmpty) = true := by
+      rcases hne with h | h <;> simp [h]
+    simp [dispatch, hm, hmp, ho, this]
+  · unfold encode
+    rw [joinAmp_encodePairs, parseForm_encodePairs]
+
+/-- **content_type_matches_body** (multipart case) — a multipart request goes out under
+`multipart/form-data; boundary=<the boundary the body was written with>` and, for everything a
+multipart body can carry, the server reads back the ordered pairs, then the merged form data
+(in map order), then the files. -/
+theorem multipart_dispatch_roundtrip (c : Cfg) (pairs : List Pair)
+    (hm : isPayloadForbid c.method c.allowGet = false) (hmp : c.multipart = true)
+    (ho : pairUp c.ordered = some pairs) (hb : (10 : UInt8) ∉ c.boundary)
+    (hfields : ∀ kv ∈ pairs ++ flatten (mergeForm c.reqForm c.clientForm), FieldOK c.boundary kv)
+    (hfiles : ∀ f ∈ c.files, FileOK c.boundary f) :
+    ∃ body, dispatch c = some ⟨.multipart, some body, formDataContentType c.boundary⟩ ∧
+      serverForm c.boundary body =
+        .ok ((pairs ++ flatten (mergeForm c.reqForm c.clientForm)).map fieldItem ++ c.files.map fileItem) := by
+  refine ⟨write c.boundary (pairs ++ flatten (mergeForm c.reqForm c.clientForm)) c.files,
+    by simp [dispatch, hm, hmp, ho], ?_⟩
+  exact multipart_roundtrip c.boundary _ c.files hb hfields hfiles
+
+end Dispatch
+
+/-! ## Part 5: progress callbacks -/
+
+section Progress
+open Req.Progress
+
+/-- **progress_monotone** (upload, `callbackWriter`) — for every sequence of write results and
+every behaviour of the clock: the reported counts are strictly increasing, every one of them
+is the true number of bytes written after some call (`Sublist` of the running counts), and none
+exceeds the bytes written in total. -/
+theorem progress_monotone_upload (st : WState) (evs : List WEvent) :
+    (runW st evs).Pairwise (· < ·) ∧ (runW st evs).Sublist (countsW st.written evs) ∧
+    ∀ x ∈ runW st evs, st.written < x ∧ x ≤ st.written + bytesW evs := by
+  have hs := runW_sublist st evs
+  exact ⟨(countsW_increasing st.written evs).sublist hs, hs,
+    fun x hx => countsW_bounds st.written evs x (hs.subset hx)⟩
+
+/-- **progress_final** (upload) — when the size was known (`totalSize` = the bytes that are
+really written) and not zero, the last reported count is that size. -/
+theorem progress_final_upload (total : Int) (evs : List WEvent)
+    (hknown : total = bytesW evs) (hpos : 0 < total) :
+    (runW ⟨0, total⟩ evs).getLast? = some total := by
+  have := runW_final ⟨0, total⟩ evs (by simp [hknown]) (by omega)
+  simpa using this
+
+example : runW ⟨0, 1000⟩ [⟨512, false⟩, ⟨0, true⟩, ⟨-1, true⟩, ⟨400, true⟩, ⟨88, false⟩] = [912, 1000] := by
+  decide
+
+/-- With an unknown size (`totalSize = 0`) nothing is promised about the end: the clock alone
+decides (this is why the property says "uploads whose size was known"). -/
+example : runW ⟨0, 0⟩ [⟨512, false⟩, ⟨488, false⟩] = [] := by decide
+
+/-- **progress_monotone** (download, `callbackReader`). -/
+theorem progress_monotone_download (evs : List REvent) :
+    (runR ⟨0, 0⟩ evs).Pairwise (· < ·) ∧ (runR ⟨0, 0⟩ evs).Sublist (countsR 0 evs) ∧
+    ∀ x ∈ runR ⟨0, 0⟩ evs, 0 < x ∧ x ≤ bytesR evs := by
+  refine ⟨runR_increasing _ evs (by simp), runR_sublist _ evs, fun x hx => ?_⟩
+  have := runR_bounds ⟨0, 0⟩ evs (by simp) x hx
+  simpa using this
+
+/-- **progress_final** (download) — once a read has delivered `io.EOF` (and nothing is read
+after it), the last reported count is the total number of bytes read, for every split into
+reads and every behaviour of the clock. -/
+theorem progress_final_download (pre post : List REvent) (e : REvent)
+    (heof : e.eof = true) (hpost : ∀ x ∈ post, x.n ≤ 0) (hpos : 0 < bytesR (pre ++ e :: post)) :
+    (runR ⟨0, 0⟩ (pre ++ e :: post)).getLast? = some (bytesR (pre ++ e :: post)) := by
+  have := runR_final ⟨0, 0⟩ pre post e (by simp) heof hpost (by simpa using hpos)
+  simpa using this
+
+example : runR ⟨0, 0⟩ [⟨100, false, false⟩, ⟨50, false, true⟩, ⟨0, false, true⟩, ⟨25, false, false⟩, ⟨0, true, false⟩,
+    ⟨0, true, true⟩] = [150, 175] := by decide
+
+end Progress
 
 end Req.Props.C17
